@@ -175,6 +175,13 @@ def sep_cases(tier, seed):
             for s in ((0.8, 0.6), (0.7071067811865476, 0.7071067811865476)):
                 for lu in ("I|I", "g0|g1", "F|X"):
                     yield {"kind": "npt", "dA": dA, "dB": dB, "lam": lam, "s": list(s), "lu": lu, "dimform": "list"}
+        # unnormalised operators: is_separable divides by the trace first, so the verdict may not depend on a positive scale factor
+        # (added after seeded change C15-7, which ran the PPT test with its absolute tolerance before normalising)
+        for scale in (1e-9, 1e-6, 1e-3, 8.0):
+            for lam in (-0.01, -0.2):
+                yield {"kind": "npt", "dA": dA, "dB": dB, "lam": lam, "s": [0.8, 0.6], "lu": "g0|g1", "dimform": "list", "scale": scale}
+            yield {"kind": "separable", "dA": dA, "dB": dB, "idx": [0, 2], "w": [1, 3], "dimform": "list", "scale": scale}
+            yield {"kind": "separable", "dA": dA, "dB": dB, "idx": [1], "w": [4], "dimform": "scalar", "scale": scale}
 
 
 def _dim_arg(case):
@@ -203,7 +210,7 @@ def traced_is_separable(rho, dim):
 def sep_check(case):
     dA, dB = case["dA"], case["dB"]
     if case["kind"] == "separable":
-        rho = sep_state(dA, dB, case["idx"], case["w"], case.get("noise", 0.0))
+        rho = sep_state(dA, dB, case["idx"], case["w"], case.get("noise", 0.0)) * case.get("scale", 1.0)
         got, exc, line, final = traced_is_separable(rho, _dim_arg(case))
         if exc is not None:
             if is_deliberate_rejection(exc):
@@ -219,7 +226,7 @@ def sep_check(case):
     rho = npt_family(dA, dB, case["lam"], s=tuple(case["s"]), lu=case["lu"])
     if min_pt_eig(rho, dA, dB) > -0.009:
         return indet("constructed NPT margin lost")
-    got, exc, line, final = traced_is_separable(rho, _dim_arg(case))
+    got, exc, line, final = traced_is_separable(rho * case.get("scale", 1.0), _dim_arg(case))
     if exc is not None:
         return no_verdict(f"is_separable raised on an NPT {dA}x{dB} state: " + exc_text(exc))
     if bool(got):
